@@ -423,6 +423,13 @@ pub fn stub_with_capacity_in<T, A: Allocator>(capacity: usize, alloc: A) -> Vec<
     unsafe { Vec::from_raw_parts_in(ptr, 0, k, alloc) }
 }
 
+// S6: core's chunked char counter is only used for strings of >= 32 bytes; within
+// the harness bounds it must be unreachable (asserted, not assumed).
+pub fn stub_do_count_chars(_s: &str) -> usize {
+    kani::assert(false, "VERIF-LIMIT string of 32 bytes or more reached core::str::count::do_count_chars");
+    0
+}
+
 // S3: path text irrelevant; non-empty so that the crate's "empty path means
 // internal pointer" convention is preserved.
 pub fn stub_format(_args: core::fmt::Arguments<'_>) -> String {
@@ -446,7 +453,8 @@ macro_rules! proof {
         #[kani::stub(alloc::alloc::Global::grow_impl_runtime, crate::verif_common::stub_grow)]
         #[kani::stub(alloc::alloc::Global::shrink_impl_runtime, crate::verif_common::stub_shrink)]
         #[kani::stub(alloc::fmt::format, crate::verif_common::stub_format)]
-        #[kani::stub(regex::Regex::new, crate::verif_common::stub_regex_new)]
+        #[kani::stub(::regex::Regex::new, crate::verif_common::stub_regex_new)]
+        #[kani::stub(core::str::count::do_count_chars, crate::verif_common::stub_do_count_chars)]
         fn $name() $body
     };
 }
@@ -463,7 +471,8 @@ macro_rules! proof_fmt {
         #[kani::stub(alloc::alloc::Global::deallocate_impl_runtime, crate::verif_common::stub_dealloc)]
         #[kani::stub(alloc::alloc::Global::grow_impl_runtime, crate::verif_common::stub_grow)]
         #[kani::stub(alloc::alloc::Global::shrink_impl_runtime, crate::verif_common::stub_shrink)]
-        #[kani::stub(regex::Regex::new, crate::verif_common::stub_regex_new)]
+        #[kani::stub(::regex::Regex::new, crate::verif_common::stub_regex_new)]
+        #[kani::stub(core::str::count::do_count_chars, crate::verif_common::stub_do_count_chars)]
         fn $name() $body
     };
 }
@@ -804,4 +813,79 @@ pub fn operand<'a>(root: &'a Mini, v: &'a Option<Mini>, as_value: bool) -> State
             }
         }
     }
+}
+
+/// Symbolic string of exactly n <= max scalars; returns (string, n).
+pub fn any_string_n(max: usize) -> (String, usize) {
+    let mut s = String::with_capacity(4 * max);
+    let n: usize = kani::any();
+    kani::assume(n <= max);
+    let mut i = 0;
+    while i < max {
+        let c: char = kani::any();
+        if i < n {
+            s.push(c);
+        }
+        i += 1;
+    }
+    (s, n)
+}
+
+/// Box over typed (stack) storage: see Scratch. Never dropped by harnesses.
+pub fn tbox<T>(slot: &mut T) -> Box<T> {
+    unsafe { Box::from_raw(slot as *mut T) }
+}
+
+/// Vec over typed (stack) storage with an opaque length.
+pub fn tvec<T>(buf: &mut [T], len: usize) -> Vec<T> {
+    let cap = buf.len();
+    unsafe { Vec::from_raw_parts(buf.as_mut_ptr(), opaque(len), cap) }
+}
+
+/// nodelist of the first k elements of `nodes` (k concrete), as the evaluator's Data
+pub fn refs_of<'a>(nodes: &'a [Mini; 4], buf: &mut [core::mem::MaybeUninit<Pointer<'a, Mini>>; 4], k: usize) -> Data<'a, Mini> {
+    let mut i = 0;
+    while i < k {
+        buf[i].write(Pointer::new(&nodes[i], String::from("p")));
+        i += 1;
+    }
+    let v = unsafe { Vec::from_raw_parts(buf.as_mut_ptr() as *mut Pointer<'a, Mini>, opaque(k), 4) };
+    Data::Refs(v)
+}
+
+/// Fill buf[at..at+w] with an arbitrary valid UTF-8 encoding of one scalar of width w.
+pub fn sym_scalar(buf: &mut [u8], at: usize, w: usize) {
+    let b0: u8 = kani::any();
+    let b1: u8 = kani::any();
+    let b2: u8 = kani::any();
+    let b3: u8 = kani::any();
+    let cont = |b: u8| b >= 0x80 && b <= 0xBF;
+    if w == 1 {
+        kani::assume(b0 < 0x80);
+        buf[at] = b0;
+    } else if w == 2 {
+        kani::assume(b0 >= 0xC2 && b0 <= 0xDF && cont(b1));
+        buf[at] = b0;
+        buf[at + 1] = b1;
+    } else if w == 3 {
+        kani::assume(b0 >= 0xE0 && b0 <= 0xEF && cont(b1) && cont(b2));
+        kani::assume(b0 != 0xE0 || b1 >= 0xA0);
+        kani::assume(b0 != 0xED || b1 <= 0x9F);
+        buf[at] = b0;
+        buf[at + 1] = b1;
+        buf[at + 2] = b2;
+    } else {
+        kani::assume(b0 >= 0xF0 && b0 <= 0xF4 && cont(b1) && cont(b2) && cont(b3));
+        kani::assume(b0 != 0xF0 || b1 >= 0x90);
+        kani::assume(b0 != 0xF4 || b1 <= 0x8F);
+        buf[at] = b0;
+        buf[at + 1] = b1;
+        buf[at + 2] = b2;
+        buf[at + 3] = b3;
+    }
+}
+
+/// &'static str over a typed stack buffer (harness values are never freed / outlived).
+pub fn str_over(buf: &[u8], len: usize) -> &'static str {
+    unsafe { core::mem::transmute::<&str, &'static str>(core::str::from_utf8_unchecked(core::slice::from_raw_parts(buf.as_ptr(), len))) }
 }
